@@ -130,6 +130,11 @@ native!(ObjectIsA, OBJECT_IS_A);
 
 impl LyNative for ObjectIsA {
   fn call(&self, hooks: &mut Hooks, args: &[Value]) -> Call {
+    // nothing is an instance of something that isn't a class
+    if !args[1].is_obj_kind(ObjectKind::Class) {
+      return Call::Ok(val!(false));
+    }
+
     let self_class = hooks.get_class(args[0]);
     let class = args[1].to_obj().to_class();
 
